@@ -6,6 +6,7 @@ import (
 	"fmt"
 	"io"
 	"strings"
+	"sync"
 
 	"mvdan.cc/sh/v3/interp"
 
@@ -882,6 +883,53 @@ func ZZ_C17_RunCommand() {
 		want := c.ran && (!errorOnly || c.failed)
 		zz.Assert(strings.Contains(all, block(c.id)) == want, "group/block-shown-iff-output-and-(not-error_only-or-failed)/"+c.id)
 	}
+	if zz.Twin() {
+		zz.Assert(false, "twin")
+	}
+	zz.Reach("end")
+}
+
+// ---- fine-grained scheduling on the deduplication core (thorough tier) ----------------------
+
+// ZZ_K_TwoCallers: two callers reach the same run: once task through the real
+// startExecution and the real concurrency slots; every synchronisation operation is a
+// scheduling point (no coarse scheduling). The shared execution may fail.
+func ZZ_K_TwoCallers() {
+	e := &Executor{executionHashes: map[string]context.Context{}, Logger: zzQuietLogger(), Taskfile: &ast.Taskfile{Run: "always"}}
+	n := zz.Choose("concurrency", 3)
+	if n > 0 {
+		e.concurrencySemaphore = make(chan struct{}, n)
+	}
+	t := &ast.Task{Task: "s", Run: "once", Location: &ast.Location{Taskfile: "f"}}
+	fail := zz.Bool("shared_fails")
+	runs := 0
+	finished := false
+	var wg sync.WaitGroup
+	var errs [2]error
+	for k := 0; k < 2; k++ {
+		wg.Add(1)
+		go func(k int) {
+			defer wg.Done()
+			release := e.acquireConcurrencyLimit()
+			defer release()
+			errs[k] = e.startExecution(context.Background(), t, func(ctx context.Context) error {
+				runs++
+				zz.Yield() // the command takes time
+				finished = true
+				if fail {
+					return fmt.Errorf("boom")
+				}
+				return nil
+			})
+			zz.Assert(finished, "caller-proceeds-only-after-the-shared-execution-finished")
+			if fail {
+				zz.Assert(errs[k] != nil, "caller-observes-the-failure")
+			}
+		}(k)
+	}
+	wg.Wait()
+	zz.Assert(runs == 1, "once-runs-once")
+	zz.Assert(len(e.concurrencySemaphore) == 0, "concurrency-slots-all-returned")
 	if zz.Twin() {
 		zz.Assert(false, "twin")
 	}
